@@ -11,7 +11,7 @@ if n!=1: print("MUTATION-PATTERN matches %d times"%n); sys.exit(3)
 open(p,'w').write(re.sub(old,lambda m:new,s,count=1))
 PY
 rc=$?
-if [ $rc -eq 0 ]; then DENDROPY_REPO=$S /verif/check $PROP | tail -4; echo "exit=$?"; fi
+if [ $rc -eq 0 ]; then VERIF_EVIDENCE_DIR=$S/evidence DENDROPY_REPO=$S /verif/check $PROP | tail -4; echo "exit=$?"; fi
 rm -rf $S
 # restore generated files for the real repo
 (cd /verif/harness && ${PY:-/venv/bin/python} extract.py >/dev/null)
